@@ -17,7 +17,7 @@
   Core Lean only (linked into `fcdrv`).
 -/
 import FcModel.SortPoints
-namespace Fc
+namespace Fc.C02
 
 /-! ### mesh_equal -/
 
@@ -65,7 +65,7 @@ structure NamedArr where
 deriving Repr, DecidableEq
 
 /-- iteration order of `MeshFields.__iter__`: point fields, then cell fields type by type -/
-def MeshFields.named (f : MeshFields) : List NamedArr :=
+def namedFields (f : MeshFields) : List NamedArr :=
   f.pointFields.map (fun pf => ⟨pf.name, "", pf.values⟩) ++
   f.mesh.cellTypes.flatMap fun ct =>
     (f.cellFields.filter (·.ctype == ct)).map fun cf => ⟨cf.name, ct, cf.values⟩
@@ -104,7 +104,7 @@ deriving Repr
 def runComparison (src ref : Side) : Outcome :=
   let t : MeshTol := if src.permuted then src.tol
     else ⟨min src.tol.atol ref.tol.atol, min src.tol.rtol ref.tol.rtol⟩
-  if meshEqual t src.f.mesh ref.f.mesh then ⟨true, compareNamed src.f.named ref.f.named⟩
+  if meshEqual t src.f.mesh ref.f.mesh then ⟨true, compareNamed (namedFields src.f) (namedFields ref.f)⟩
   else ⟨false, []⟩
 
 /-! ### extend_space_dimension_to -/
@@ -196,4 +196,4 @@ def ladder (asS asR : List Int → List Nat) (h : List Nat → Int) (fl : Ladder
     | _, _ => .raised
   else ladderReorder asS asR h fl src ref 0 o0
 
-end Fc
+end Fc.C02
